@@ -262,44 +262,66 @@ fn make_plan(r: &mut Rng, up: &UProg, vects: &[(u8, u8)], o: &Opts) -> Plan {
 #[derive(Clone, Copy, Debug, PartialEq)]
 enum PIrq { V(u8, u8), E }
 fn key(p: &PIrq) -> u8 { match p { PIrq::V(_, p) => *p, PIrq::E => 8 } }
-/// what every device will answer at the next poll, in device order
-fn pending(m: &mut Machine, kb_locked: bool) -> Vec<PIrq> {
+/// what every device will answer at the next poll, in device order.  A timer whose count is 0 draws a
+/// fresh count at the poll and fires at once when that count is 0 again: `Draw(k, irq)` is resolved
+/// after the step by looking at timer k only.
+#[derive(Clone, Copy, Debug, PartialEq)]
+enum Pend { Now(PIrq), Draw(usize, PIrq) }
+fn pending(m: &mut Machine, kb_locked: bool) -> Vec<Pend> {
     let mut v = vec![];
     if let Some(b) = &m.kb {
         let ready = !kb_locked && !b.read().unwrap().is_empty();
         use lc3_ensemble::sim::device::ExternalDevice;
         let ie = m.sim.device_handler.io_read(0xFE00, false).map(|x| x & 0x4000 != 0).unwrap_or(false);
-        if ready && ie { v.push(PIrq::V(0x80, 4)); }
+        if ready && ie { v.push(Pend::Now(PIrq::V(0x80, 4))); }
     }
-    for x in &m.extras {
+    for (k, x) in m.extras.iter().enumerate() {
         match x {
-            ExtraH::Timer(t) => { let t = t.lock().unwrap(); if t.enabled && t.get_remaining() == 1 { v.push(PIrq::V(t.vect, t.priority.min(7))); } }
+            ExtraH::Timer(t) => {
+                let t = t.lock().unwrap();
+                if t.enabled && t.get_remaining() == 1 { v.push(Pend::Now(PIrq::V(t.vect, t.priority.min(7)))); }
+                if t.enabled && t.get_remaining() == 0 { v.push(Pend::Draw(k, PIrq::V(t.vect, t.priority.min(7)))); }
+            }
             ExtraH::Script(q) => match q.lock().unwrap().front() {
-                Some(Some(Irq::Vec(vc, p))) => v.push(PIrq::V(*vc, (*p).min(7))),
-                Some(Some(Irq::Ext)) => v.push(PIrq::E),
+                Some(Some(Irq::Vec(vc, p))) => v.push(Pend::Now(PIrq::V(*vc, (*p).min(7)))),
+                Some(Some(Irq::Ext)) => v.push(Pend::Now(PIrq::E)),
                 _ => {}
             },
         }
     }
     v
 }
+fn resolve(m: &Machine, p: &[Pend]) -> Vec<PIrq> {
+    p.iter().filter_map(|x| match x {
+        Pend::Now(i) => Some(*i),
+        Pend::Draw(k, i) => match &m.extras[*k] { ExtraH::Timer(t) if t.lock().unwrap().get_remaining() == 0 => Some(*i), _ => None },
+    }).collect()
+}
 /// the request that wins arbitration: maximal key, the last one among equals
 fn winner(p: &[PIrq]) -> Option<PIrq> {
     let mx = p.iter().map(key).max()?;
     p.iter().rev().find(|x| key(x) == mx).copied()
 }
-struct Pre { pc: u16, psr: u16, regs: [W; 8], ssp: W, instrs: u64, flen: usize, win: Option<PIrq>, strict: bool, fetch_ok: bool, vec_w: Option<W>, tgt_init: bool }
+struct Pre { pc: u16, psr: u16, regs: [W; 8], ssp: W, instrs: u64, flen: usize, cands: Vec<Pend>, win: Option<PIrq>, strict: bool, fetch_ok: bool,
+             vec_ws: Vec<(u8, W, bool)>, vec_w: Option<W>, tgt_init: bool }
 fn snapshot(m: &mut Machine, kb_locked: bool, st: &Setup) -> Pre {
-    let win = winner(&pending(m, kb_locked));
+    let cands = pending(m, kb_locked);
     let s = &m.sim;
     let psr = s.psr().get();
     let mut regs = [(0u16, 0u16); 8];
     for k in 0..8u8 { regs[k as usize] = s.reg_file[reg(k)].verif_parts(); }
     let privl = psr & 0x8000 == 0 || st.ignore_priv;
-    let vec_w = match win { Some(PIrq::V(v, _)) => Some(s.mem[0x100 + v as u16].verif_parts()), _ => None };
-    let tgt_init = vec_w.map(|w| s.mem[w.0].is_init()).unwrap_or(true);
+    let vec_ws = cands.iter().filter_map(|c| match c { Pend::Now(PIrq::V(v, _)) | Pend::Draw(_, PIrq::V(v, _)) => {
+        let w = s.mem[0x100 + *v as u16].verif_parts(); Some((*v, w, s.mem[w.0].is_init())) } _ => None }).collect();
     Pre { pc: s.pc, psr, regs, ssp: s.verif_saved_sp().verif_parts(), instrs: s.instructions_run, flen: s.frame_stack.len() as usize,
-          win, strict: st.strict, fetch_ok: privl || (0x3000..0xFE00).contains(&s.pc), vec_w, tgt_init }
+          cands, win: None, strict: st.strict, fetch_ok: privl || (0x3000..0xFE00).contains(&s.pc), vec_ws, vec_w: None, tgt_init: true }
+}
+/// after the step: settle the timers that drew a fresh count and fix the winner
+fn settle(p: &mut Pre, m: &Machine) {
+    p.win = winner(&resolve(m, &p.cands));
+    if let Some(PIrq::V(v, _)) = p.win {
+        if let Some((_, w, ti)) = p.vec_ws.iter().find(|x| x.0 == v) { p.vec_w = Some(*w); p.tgt_init = *ti; }
+    }
 }
 /// Some(vect, prio) when the reference says the interrupt is taken at this boundary
 fn expect_taken(p: &Pre) -> Option<(u8, u8)> {
@@ -380,8 +402,9 @@ fn run_machine(ctx: &Ctx, st: &Setup, limit: usize, keep_obs: bool, stats: &Entr
     let mut end = EndK::Limit;
     let mut steps = 0;
     while steps < limit {
-        let pre = snapshot(&mut m, false, st);
+        let mut pre = snapshot(&mut m, false, st);
         let (out, env, o) = m.step(false, false);
+        settle(&mut pre, &m);
         steps += 1;
         envs.push(env);
         if out != Outcome::Panic { if let Some(what) = check_step(&pre, &m, &out, &o, stats) {
@@ -646,8 +669,9 @@ fn random_states(ctx: &Ctx, root: &Rng, runs: usize, stats: &EntryStats) {
         for _ in 0..1 + r.below(12) {
             let kbl = r.chance(1, 8);
             let has_kb = m.kb.is_some();
-            let pre = snapshot(&mut m, kbl && has_kb, &st);
+            let mut pre = snapshot(&mut m, kbl && has_kb, &st);
             let (out, env, o) = m.step(kbl, false);
+            settle(&mut pre, &m);
             envs.push(env);
             steps.fetch_add(1, Relaxed);
             if out == Outcome::Panic { break; }
